@@ -5,7 +5,11 @@ import (
 	"errors"
 	"fmt"
 	"io"
+	"os"
+	"path/filepath"
 	"strings"
+
+	slug "github.com/hashicorp/go-slug"
 
 	"verif/harness/corpus"
 	"verif/harness/fw"
@@ -32,6 +36,9 @@ var allowChoices = [][]string{nil, nil, nil, {"secret"}, {"../secret"}, {"../sib
 
 func hostileArena(r *fw.Rand, withAllow bool) arenaSpec {
 	a := arenaVariants[r.Intn(len(arenaVariants))]
+	if r.Chance(1, 3) {
+		a.Spell = 1 + r.Intn(len(dstSpellings)-1)
+	}
 	if withAllow {
 		al := allowChoices[r.Intn(len(allowChoices))]
 		for _, x := range al {
@@ -48,7 +55,7 @@ func hostileArena(r *fw.Rand, withAllow bool) arenaSpec {
 // judgeHostile turns an observation into a result for property which.
 func judgeHostile(which string, hc hostileCase, obs unpackObs) fw.Result {
 	res := fw.Result{Case: map[string]interface{}{"arena": hc.Arena, "entries": entryStrings(hc.Entries), "reader_fault": hc.Fault}}
-	res.Hash = fw.HashString(entriesKey(hc.Entries) + hc.Arena.Dst() + fmt.Sprint(hc.Arena.Prepop, hc.Arena.Allow) + hc.Fault)
+	res.Hash = fw.HashString(entriesKey(hc.Entries) + hc.Arena.DstArg() + fmt.Sprint(hc.Arena.Prepop, hc.Arena.Allow) + hc.Fault)
 	res.Class = errClass(obs)
 	res.Obs = map[string]int64{}
 	if hostileShare(hc.Entries) {
@@ -248,24 +255,39 @@ func hostilePhases(which string) []*fw.Phase {
 	}
 	faults := &fw.Phase{
 		Name: "reader-faults-every-offset", Chroot: true,
-		N: fw.Fixed(40, 1500),
+		N: fw.Fixed(28+40, 28+1500),
 		Run: func(env *fw.Env, idx int) fw.Result {
 			r := env.Rand(idx)
 			var es []gen.TarEntry
-			if r.Chance(1, 2) {
+			hc := hostileCase{Arena: hostileArena(r, false)}
+			step := 1
+			switch {
+			case idx < nv*len(dstSpellings):
+				// the stream breaks inside the body of a large file, for
+				// every arena and every spelling of dst (clean-up code on
+				// this error path must not reach above dst)
+				body := make([]byte, 6000)
+				for i := range body {
+					body[i] = byte(r.Intn(256))
+				}
+				es = []gen.TarEntry{{Name: "a/b/big.bin", Type: "file", Mode: 0644, Body: string(body)}, {Name: "a/b/after", Type: "file", Mode: 0600, Body: "x"}}
+				hc.Arena = arenaVariants[idx%nv]
+				hc.Arena.Spell = idx / nv
+				step = 89
+			case r.Chance(1, 2):
 				es = gen.HostileSequence(r, 5)
-			} else {
+			default:
 				es = []gen.TarEntry{alpha[r.Intn(na)], alpha[r.Intn(na)], alpha[r.Intn(na)]}
 			}
-			hc := hostileCase{Arena: hostileArena(r, false), Entries: es}
+			hc.Entries = es
 			subst := gen.Subst(es, hc.Arena.Dst())
 			data, err := gen.BuildTarGz(subst, "")
 			if err != nil {
 				return fw.Result{Class: "unbuildable-archive"}
 			}
 			agg := fw.Result{Class: "all-offsets", NonTrivial: true, Hash: fw.HashString("faults|" + entriesKey(es) + hc.Arena.Dst()), Obs: map[string]int64{}}
-			agg.Case = map[string]interface{}{"arena": hc.Arena, "entries": entryStrings(subst), "stream_bytes": len(data), "faults": "error and clean EOF at every offset 0..len"}
-			for k := 0; k <= len(data); k++ {
+			agg.Case = map[string]interface{}{"arena": hc.Arena, "entries": entryStrings(subst), "stream_bytes": len(data), "faults": fmt.Sprintf("error and clean EOF at every offset 0..len (step %d)", step)}
+			for k := 0; k <= len(data); k += step {
 				for _, eof := range []bool{false, true} {
 					buildArena(hc.Arena)
 					kk, ee := k, eof
@@ -299,7 +321,72 @@ func hostilePhases(which string) []*fw.Phase {
 			return runHostile(which, hostileCase{Arena: arenaVariants[idx%nv], Entries: es})
 		},
 	}
-	return []*fw.Phase{singles, pairs, triples, coopTriples, coopRandom, random, links, distilled, faults}
+	// one Packer value, configured with allow-list entries relative to the
+	// destination, unpacks into one directory and then into another: what
+	// the second call may do is decided by the second destination alone
+	reused := &fw.Phase{
+		Name: "packer-reused-for-another-destination", Chroot: true,
+		N: fw.Fixed(3000, 40000),
+		Run: func(env *fw.Env, idx int) fw.Result {
+			r := env.Rand(idx)
+			b := arenaVariants[r.Intn(nv)]
+			if r.Chance(1, 4) {
+				b.Spell = 1 + r.Intn(len(dstSpellings)-1)
+			}
+			b.Allow = [][]string{{"../shared"}, {"../shared", "../secret"}, {"../shared/f"}, {"../../shared"}}[r.Intn(4)]
+			const first = "/arena/one/deeper/dst"
+			buildArena(b)
+			mustWrite("/arena/one/deeper/shared/f", "OUTSIDE-first-shared", 0644)
+			mustWrite("/arena/one/shared/f", "OUTSIDE-first-shared-2", 0644)
+			mustWrite("/arena/one/deeper/secret", "OUTSIDE-first-secret", 0644)
+			os.MkdirAll(first, 0755)
+			var opts []slug.PackerOption
+			for _, al := range b.Allow {
+				opts = append(opts, slug.AllowSymlinkTarget(al))
+			}
+			p, err := slug.NewPacker(opts...)
+			if err != nil {
+				return fw.Result{Verdict: fw.Inconclusive, Msg: err.Error()}
+			}
+			// the first archive uses what the allow-list permits there
+			e1 := []gen.TarEntry{{Name: "l", Type: "link", Link: "../shared/f", Mode: 0777}, {Name: "m", Type: "link", Link: "../../shared/f", Mode: 0777}, {Name: "s", Type: "link", Link: "../secret", Mode: 0777}, {Name: "a", Type: "file", Mode: 0644, Body: "a"}}
+			for _, e := range e1 {
+				if d1, err := gen.BuildTarGz([]gen.TarEntry{e}, ""); err == nil {
+					fw.Try(func() { p.Unpack(bytes.NewReader(d1), first) })
+				}
+			}
+			// the second archive points at the zones that were legitimate for the first destination
+			rel := func(target string) string {
+				t, _ := filepath.Rel(b.Dst(), target)
+				return t
+			}
+			zone := []string{"/arena/one/deeper/shared/f", "/arena/one/deeper/shared", "/arena/one/shared/f", "/arena/one/deeper/secret", first + "/a"}[r.Intn(5)]
+			var e2 []gen.TarEntry
+			switch r.Intn(4) {
+			case 0:
+				e2 = []gen.TarEntry{{Name: "x", Type: "link", Link: rel(zone), Mode: 0777}}
+			case 1:
+				e2 = []gen.TarEntry{{Name: "sub/x", Type: "link", Link: "../" + rel(zone), Mode: 0777}, {Name: "sub/x", Type: "file", Mode: 0644, Body: "through"}}
+			case 2:
+				e2 = []gen.TarEntry{{Name: "x", Type: "link", Link: zone, Mode: 0777}}
+			default:
+				e2 = append([]gen.TarEntry{{Name: "x", Type: "link", Link: rel(zone), Mode: 0777}}, gen.LinkFocused(r)...)
+			}
+			hc := hostileCase{Arena: b, Entries: gen.Subst(e2, b.Dst())}
+			data, err := gen.BuildTarGz(hc.Entries, "")
+			if err != nil {
+				return fw.Result{Class: "unbuildable-archive"}
+			}
+			obs := runUnpackWith(p, b, data, nil)
+			res := judgeHostile(which, hc, obs)
+			if m, ok := res.Case.(map[string]interface{}); ok {
+				m["packer_used_before_on"] = first
+				m["first_archive"] = entryStrings(e1)
+			}
+			return res
+		},
+	}
+	return []*fw.Phase{singles, pairs, triples, coopTriples, coopRandom, random, links, distilled, reused, faults}
 }
 
 func init() {
